@@ -37,6 +37,22 @@ type c08Line struct {
 	Identical bool      `json:"identical"`
 }
 
+// introBytes: the bytes an edit introduces. One edit in four introduces a run of ONE repeated byte (zero fill,
+// padding, 0xff): every window inside such a run has the same rolling hash as the one before it, which is the case
+// the differ's "same hash as the previous position, do not look it up again" shortcut is about - the data that
+// FOLLOWS the run must be found again.
+func introBytes(rng *rand.Rand, n int) ([]byte, string) {
+	b := randBytes(rng, n)
+	if rng.Intn(4) == 0 {
+		v := []byte{0, 0xff, ' ', byte(rng.Intn(256))}[rng.Intn(4)]
+		for i := range b {
+			b[i] = v
+		}
+		return b, fmt.Sprintf("const%d", v)
+	}
+	return b, ""
+}
+
 func applyEdits(rng *rand.Rand, c []byte, k int) (out []byte, introduced int64, script string) {
 	out = append([]byte{}, c...)
 	for e := 0; e < k; e++ {
@@ -51,15 +67,16 @@ func applyEdits(rng *rand.Rand, c []byte, k int) (out []byte, introduced int64, 
 			}
 			at := rng.Intn(len(out))
 			ln := minInt(maxLen, len(out)-at)
-			copy(out[at:at+ln], randBytes(rng, ln))
+			nb, tag := introBytes(rng, ln)
+			copy(out[at:at+ln], nb)
 			introduced += int64(ln)
-			script += fmt.Sprintf("ow@%d+%d ", at, ln)
+			script += fmt.Sprintf("ow%s@%d+%d ", tag, at, ln)
 		case 1: // insert
 			at := rng.Intn(len(out) + 1)
-			ins := randBytes(rng, maxLen)
+			ins, tag := introBytes(rng, maxLen)
 			out = append(append(append([]byte{}, out[:at]...), ins...), out[at:]...)
 			introduced += int64(maxLen)
-			script += fmt.Sprintf("ins@%d+%d ", at, maxLen)
+			script += fmt.Sprintf("ins%s@%d+%d ", tag, at, maxLen)
 		default: // delete
 			if len(out) == 0 {
 				continue
